@@ -403,6 +403,9 @@ class ModuleVistor(NodeVisitor):
                 if not isinstance(ob.parent, model.CanContainImportsDocumentable):
                     # A top-level module or package is not defined in a module: there is nothing to move.
                     return False
+                if isinstance(ob, model.Module) and not isinstance(current, model.Package):
+                    # A module can only be presented as a member of a package.
+                    return False
                 if origin_module.all is None or origin_name not in origin_module.all:
                     self.system.msg(
                         "astbuilder",
